@@ -368,4 +368,813 @@ theorem firstValueSpec_reverse (cells : Nat → Val) (ign : Bool) (w : Window) (
   rw [show post.length + 1 + pre.length = pre.length + 1 + post.length by omega]
   rw [hb, hl]
 
+/-! ### ROW_NUMBER -/
+
+theorem rowNumberLoop_spec : ∀ (rest pre : List Nat),
+    rowNumberLoop rest pre.length = perRow rowNumberSpec pre rest
+  | [], _ => rfl
+  | x :: rest, pre => by
+    simp only [rowNumberLoop, perRow, rowNumberSpec]
+    have := rowNumberLoop_spec rest (pre ++ [x])
+    simp only [List.length_append, List.length_cons, List.length_nil] at this
+    rw [← this]
+
+/-! ### runs of peers: RANK, DENSE_RANK, CUME_DIST, PERCENT_RANK -/
+
+section runs
+variable (eqv : Nat → Nat → Bool)
+
+theorem sublist3 (pre0 : List Nat) (h : Nat) (run : List Nat) (x : Nat) (rest : List Nat) (j : Nat) (hj : j ∈ pre0) :
+    [j, h, x].Sublist (pre0 ++ h :: run ++ x :: rest) := by
+  have a : [j].Sublist pre0 := List.singleton_sublist.mpr hj
+  have b : [h].Sublist (h :: run) := List.singleton_sublist.mpr (by simp)
+  have c : [x].Sublist (x :: rest) := List.singleton_sublist.mpr (by simp)
+  have := (a.append b).append c
+  simpa using this
+
+/-- the current row `x` continues the run headed by `h` -/
+theorem run_continue {p pre0 run rest : List Nat} {h x : Nat} (P : Peers eqv p)
+    (hp : p = pre0 ++ h :: run ++ x :: rest)
+    (hrun : ∀ y ∈ run, eqv y h = true) (hpre : ∀ y ∈ pre0, eqv y h = false) (hx : eqv x h = true) :
+    (∀ j ∈ pre0, eqv j x = false) ∧ (∀ j ∈ h :: run, eqv j x = true) := by
+  constructor
+  · intro j hj
+    cases hjx : eqv j x with
+    | false => rfl
+    | true =>
+      have := P.contig j h x (hp ▸ sublist3 pre0 h run x rest j hj) hjx
+      rw [hpre j hj] at this; exact absurd this (by simp)
+  · intro j hj
+    rcases List.mem_cons.mp hj with rfl | hj
+    · exact P.symm _ _ hx
+    · exact P.trans _ _ _ (hrun j hj) (P.symm _ _ hx)
+
+/-- the current row `x` opens a new run -/
+theorem run_break {p pre0 run rest : List Nat} {h x : Nat} (P : Peers eqv p)
+    (hp : p = pre0 ++ h :: run ++ x :: rest)
+    (hrun : ∀ y ∈ run, eqv y h = true) (hpre : ∀ y ∈ pre0, eqv y h = false) (hx : eqv x h = false) :
+    ∀ j ∈ pre0 ++ h :: run, eqv j x = false := by
+  intro j hj
+  cases hjx : eqv j x with
+  | false => rfl
+  | true =>
+    exfalso
+    rcases List.mem_append.mp hj with hj | hj
+    · have := P.contig j h x (hp ▸ sublist3 pre0 h run x rest j hj) hjx
+      rw [hpre j hj] at this; exact absurd this (by simp)
+    · rcases List.mem_cons.mp hj with rfl | hj
+      · have := P.symm _ _ hjx; rw [hx] at this; exact absurd this (by simp)
+      · have := P.trans _ _ _ (P.symm _ _ hjx) (hrun j hj); rw [hx] at this; exact absurd this (by simp)
+
+theorem filter_length_all {α : Type} (q : α → Bool) (l : List α) (h : ∀ a ∈ l, q a = true) :
+    (l.filter q).length = l.length := by rw [List.filter_eq_self.mpr h]
+
+theorem filter_length_none {α : Type} (q : α → Bool) (l : List α) (h : ∀ a ∈ l, q a = false) :
+    (l.filter q).length = 0 := by
+  rw [List.filter_eq_nil_iff.mpr (fun a ha => by simp [h a ha])]; rfl
+
+theorem rankLoop_spec {p : List Nat} (P : Peers eqv p) : ∀ (rest pre0 : List Nat) (h : Nat) (run : List Nat),
+    p = pre0 ++ h :: run ++ rest → (∀ y ∈ run, eqv y h = true) → (∀ y ∈ pre0, eqv y h = false) →
+    rankLoop eqv rest (pre0.length + 1 + run.length) (pre0.length + 1) (some h)
+      = perRow (rankSpec eqv) (pre0 ++ h :: run) rest := by
+  intro rest
+  induction rest with
+  | nil => intros; rfl
+  | cons x rest ih =>
+    intro pre0 h run hp hrun hpre
+    simp only [rankLoop, sameRank, perRow]
+    by_cases hx : eqv x h = true
+    · obtain ⟨h1, h2⟩ := run_continue eqv P hp hrun hpre hx
+      simp only [hx, if_true]
+      have hs : rankSpec eqv (pre0 ++ h :: run) x rest = pre0.length + 1 := by
+        unfold rankSpec
+        rw [List.filter_append, List.length_append,
+          filter_length_all _ pre0 (fun a ha => by simp [h1 a ha]),
+          filter_length_none _ (h :: run) (fun a ha => by simp [h2 a ha])]
+        omega
+      rw [hs]
+      have := ih pre0 h (run ++ [x]) (by simp [hp])
+        (fun y hy => by
+          rcases List.mem_append.mp hy with hy | hy
+          · exact hrun y hy
+          · simp at hy; subst hy; exact hx) hpre
+      simp only [List.length_append, List.length_cons, List.length_nil] at this
+      rw [show pre0.length + 1 + run.length + 1 = pre0.length + 1 + (run.length + (0 + 1)) by omega, this]
+      simp
+    · have hx' : eqv x h = false := by simpa using hx
+      have h1 := run_break eqv P hp hrun hpre hx'
+      simp only [hx', Bool.false_eq_true, if_false]
+      have hs : rankSpec eqv (pre0 ++ h :: run) x rest = pre0.length + 1 + run.length + 1 := by
+        unfold rankSpec
+        rw [filter_length_all _ _ (fun a ha => by simp [h1 a ha])]
+        simp; omega
+      rw [hs]
+      have := ih (pre0 ++ h :: run) x [] (by simp [hp]) (by simp) h1
+      simp only [List.length_append, List.length_cons, List.length_nil] at this
+      rw [show pre0.length + 1 + run.length + 1 = pre0.length + (run.length + 1) + 1 + 0 by omega,
+        show pre0.length + (run.length + 1) + 1 + 0 = pre0.length + (run.length + 1) + 1 by omega] at *
+      rw [this]
+
+theorem rank_eq_spec {p : List Nat} (P : Peers eqv p) : rank eqv p = perRow (rankSpec eqv) [] p := by
+  cases p with
+  | nil => rfl
+  | cons x rest =>
+    simp only [rank, rankLoop, sameRank, Bool.false_eq_true, if_false, perRow]
+    have := rankLoop_spec eqv P rest [] x [] (by simp) (by simp) (by simp)
+    simp only [List.length_nil] at this
+    rw [this]
+    simp [rankSpec]
+
+/-! DENSE_RANK -/
+
+theorem numClasses_snoc (x : Nat) : ∀ (l seen : List Nat),
+    numClasses eqv seen (l ++ [x]) = numClasses eqv seen l + (if (seen ++ l).any (fun z => eqv x z) then 0 else 1)
+  | [], seen => by simp [numClasses]
+  | y :: l, seen => by
+    simp only [List.cons_append, numClasses]
+    rw [numClasses_snoc x l (seen ++ [y])]
+    simp only [List.append_assoc, List.singleton_append]
+    omega
+
+theorem denseLoop_spec {p : List Nat} (P : Peers eqv p) : ∀ (rest pre0 : List Nat) (h : Nat) (run : List Nat),
+    p = pre0 ++ h :: run ++ rest → (∀ y ∈ run, eqv y h = true) → (∀ y ∈ pre0, eqv y h = false) →
+    denseLoop eqv rest (numClasses eqv [] (pre0 ++ h :: run)) (some h)
+      = perRow (denseRankSpec eqv) (pre0 ++ h :: run) rest := by
+  intro rest
+  induction rest with
+  | nil => intros; rfl
+  | cons x rest ih =>
+    intro pre0 h run hp hrun hpre
+    simp only [denseLoop, sameRank, perRow]
+    have hsn := numClasses_snoc eqv x (pre0 ++ h :: run) []
+    simp only [List.nil_append] at hsn
+    by_cases hx : eqv x h = true
+    · simp only [hx, if_true]
+      have hany : (pre0 ++ h :: run).any (fun z => eqv x z) = true :=
+        List.any_eq_true.mpr ⟨h, by simp, hx⟩
+      have hsn' : numClasses eqv [] (pre0 ++ h :: run ++ [x]) = numClasses eqv [] (pre0 ++ h :: run) := by
+        rw [hsn]; simp [hany]
+      have hs : denseRankSpec eqv (pre0 ++ h :: run) x rest = numClasses eqv [] (pre0 ++ h :: run) := by
+        unfold denseRankSpec; exact hsn'
+      rw [hs]
+      have := ih pre0 h (run ++ [x]) (by simp [hp])
+        (fun y hy => by
+          rcases List.mem_append.mp hy with hy | hy
+          · exact hrun y hy
+          · simp at hy; subst hy; exact hx) hpre
+      have e : pre0 ++ h :: (run ++ [x]) = pre0 ++ h :: run ++ [x] := by simp
+      rw [e] at this
+      rw [← this, hsn']
+    · have hx' : eqv x h = false := by simpa using hx
+      have h1 := run_break eqv P hp hrun hpre hx'
+      simp only [hx', Bool.false_eq_true, if_false]
+      have hany : (pre0 ++ h :: run).any (fun z => eqv x z) = false := by
+        rw [List.any_eq_false]
+        intro z hz hxz
+        have := P.symm _ _ hxz
+        rw [h1 z hz] at this; exact absurd this (by simp)
+      have hsn' : numClasses eqv [] (pre0 ++ h :: run ++ [x]) = numClasses eqv [] (pre0 ++ h :: run) + 1 := by
+        rw [hsn]; simp [hany]
+      have hs : denseRankSpec eqv (pre0 ++ h :: run) x rest = numClasses eqv [] (pre0 ++ h :: run) + 1 := by
+        unfold denseRankSpec; exact hsn'
+      rw [hs]
+      have := ih (pre0 ++ h :: run) x [] (by simp [hp]) (by simp) h1
+      have e : pre0 ++ h :: run ++ x :: [] = pre0 ++ h :: run ++ [x] := by simp
+      rw [e] at this
+      rw [← this, hsn']
+
+theorem denseRank_eq_spec {p : List Nat} (P : Peers eqv p) : denseRank eqv p = perRow (denseRankSpec eqv) [] p := by
+  cases p with
+  | nil => rfl
+  | cons x rest =>
+    simp only [denseRank, denseLoop, sameRank, Bool.false_eq_true, if_false, perRow]
+    have := denseLoop_spec eqv P rest [] x [] (by simp) (by simp) (by simp)
+    simp only [List.nil_append] at this
+    have h1 : numClasses eqv [] [x] = 1 := by simp [numClasses]
+    rw [h1] at this
+    rw [this]
+    simp [denseRankSpec, numClasses]
+
+/-! perseCumulativeGroups: the groups are the runs -/
+
+/-- the same loop with the last (open) group kept apart -/
+def openLoop : List Nat → Nat → List Nat → List (List Nat)
+  | [], _, g => [g]
+  | idx :: rest, h, g => if eqv idx h then openLoop rest h (g ++ [idx]) else g :: openLoop rest idx [idx]
+
+theorem appendToLast_snoc (idx : Nat) (g : List Nat) : ∀ (G : List (List Nat)),
+    appendToLast idx (G ++ [g]) = G ++ [g ++ [idx]]
+  | [] => rfl
+  | [a] => by simp [appendToLast]
+  | a :: b :: G => by
+    have := appendToLast_snoc idx g (b :: G)
+    simp only [List.cons_append] at this ⊢
+    simp only [appendToLast]
+    rw [this]
+
+theorem cumGroups_open : ∀ (rest : List Nat) (h : Nat) (g : List Nat) (G : List (List Nat)),
+    cumGroups eqv rest (some h) (G ++ [g]) = G ++ openLoop eqv rest h g
+  | [], _, _, _ => rfl
+  | idx :: rest, h, g, G => by
+    simp only [cumGroups, sameRank, openLoop]
+    by_cases hx : eqv idx h = true
+    · simp only [hx, if_true]
+      rw [appendToLast_snoc, cumGroups_open rest h (g ++ [idx]) G]
+    · simp only [hx, Bool.false_eq_true, if_false]
+      rw [cumGroups_open rest idx [idx] (G ++ [g])]
+      simp
+
+theorem cumGroups_eq (x : Nat) (rest : List Nat) : cumGroups eqv (x :: rest) none [] = openLoop eqv rest x [x] := by
+  simp only [cumGroups, sameRank, Bool.false_eq_true, if_false]
+  have := cumGroups_open eqv rest x [x] []
+  simpa using this
+
+/-- a block of mutual peers followed by rows none of which is a peer of the block: CUME_DIST -/
+theorem cume_block (total : Nat) : ∀ (g pre0 tail : List Nat),
+    total = pre0.length + g.length + tail.length →
+    g.Pairwise (fun a b => eqv b a = true) → (∀ j ∈ tail, ∀ y ∈ g, eqv j y = false) →
+    perRow (cumeDistSpec eqv) pre0 (g ++ tail)
+      = g.map (fun y => (y, (pre0.length + g.length, total))) ++ perRow (cumeDistSpec eqv) (pre0 ++ g) tail := by
+  intro g
+  induction g with
+  | nil => intro pre0 tail _ _ _; simp
+  | cons y g ih =>
+    intro pre0 tail ht hg htail
+    obtain ⟨hy, hg'⟩ := List.pairwise_cons.mp hg
+    simp only [List.cons_append, perRow, List.map_cons]
+    have hs : cumeDistSpec eqv pre0 y (g ++ tail) = (pre0.length + (y :: g).length, total) := by
+      unfold cumeDistSpec
+      rw [List.filter_append, List.length_append,
+        filter_length_all _ g (fun a ha => hy a ha),
+        filter_length_none _ tail (fun a ha => htail a ha y (by simp))]
+      simp only [List.length_append, List.length_cons] at ht ⊢
+      rw [ht]; congr 1 <;> omega
+    rw [hs]
+    rw [ih (pre0 ++ [y]) tail (by simp at ht ⊢; omega) hg' (fun j hj z hz => htail j hj z (by simp [hz]))]
+    simp only [List.length_append, List.length_cons, List.length_nil, List.append_assoc, List.singleton_append]
+    congr 2
+    apply List.map_congr_left
+    intro z _
+    congr 2; omega
+
+theorem group_pairwise {p : List Nat} (P : Peers eqv p) (h : Nat) (run : List Nat)
+    (hrun : ∀ y ∈ run, eqv y h = true) : (h :: run).Pairwise (fun a b => eqv b a = true) := by
+  rw [List.pairwise_cons]
+  refine ⟨hrun, List.pairwise_of_forall_mem_list ?_⟩
+  intro a ha b hb
+  exact P.trans _ _ _ (hrun b hb) (P.symm _ _ (hrun a ha))
+
+/-- rows after a run that has been closed by `x` are no peers of the run's members -/
+theorem after_break {p pre0 run rest : List Nat} {h x : Nat} (P : Peers eqv p)
+    (hp : p = pre0 ++ h :: run ++ x :: rest)
+    (hrun : ∀ y ∈ run, eqv y h = true) (hx : eqv x h = false) :
+    ∀ j ∈ x :: rest, ∀ y ∈ h :: run, eqv j y = false := by
+  intro j hj y hy
+  have yh : eqv y h = true ∨ y = h := by
+    rcases List.mem_cons.mp hy with rfl | hy
+    · exact Or.inr rfl
+    · exact Or.inl (hrun y hy)
+  have xy_false : eqv x y = false := by
+    cases hxy : eqv x y with
+    | false => rfl
+    | true =>
+      rcases yh with yh | rfl
+      · have := P.trans _ _ _ hxy yh; rw [hx] at this; exact absurd this (by simp)
+      · rw [hx] at hxy; exact absurd hxy (by simp)
+  rcases List.mem_cons.mp hj with rfl | hj
+  · exact xy_false
+  · cases hjy : eqv j y with
+    | false => rfl
+    | true =>
+      exfalso
+      -- y … x … j with y, j peers ⇒ y, x peers
+      have sub : [y, x, j].Sublist p := by
+        have a : [y].Sublist (pre0 ++ h :: run) := List.singleton_sublist.mpr (by simp [List.mem_cons.mp hy])
+        have b : [x].Sublist [x] := List.Sublist.refl _
+        have c : [j].Sublist rest := List.singleton_sublist.mpr hj
+        have := (a.append b).append c
+        rw [hp]; simpa using this
+      have := P.symm _ _ (P.contig y x j sub (P.symm _ _ hjy))
+      rw [xy_false] at this; exact absurd this (by simp)
+
+theorem cumeLoop_spec {p : List Nat} (P : Peers eqv p) : ∀ (rest pre0 : List Nat) (h : Nat) (run : List Nat),
+    p = pre0 ++ h :: run ++ rest → (∀ y ∈ run, eqv y h = true) →
+    cumeLoop p.length (openLoop eqv rest h (h :: run)) pre0.length
+      = perRow (cumeDistSpec eqv) pre0 (h :: run ++ rest) := by
+  intro rest
+  induction rest with
+  | nil =>
+    intro pre0 h run hp hrun
+    simp only [openLoop, cumeLoop, List.append_nil]
+    have := cume_block eqv p.length (h :: run) pre0 [] (by rw [hp]; simp) (group_pairwise eqv P h run hrun) (by simp)
+    simp only [List.append_nil] at this
+    rw [this]; simp [perRow]
+  | cons x rest ih =>
+    intro pre0 h run hp hrun
+    simp only [openLoop]
+    by_cases hx : eqv x h = true
+    · simp only [hx, if_true]
+      have := ih pre0 h (run ++ [x]) (by simp [hp])
+        (fun y hy => by
+          rcases List.mem_append.mp hy with hy | hy
+          · exact hrun y hy
+          · simp at hy; subst hy; exact hx)
+      simpa using this
+    · have hx' : eqv x h = false := by simpa using hx
+      simp only [hx', Bool.false_eq_true, if_false, cumeLoop]
+      have hb := cume_block eqv p.length (h :: run) pre0 (x :: rest) (by rw [hp]; simp; omega)
+        (group_pairwise eqv P h run hrun) (after_break eqv P hp hrun hx')
+      rw [hb]
+      have := ih (pre0 ++ h :: run) x [] (by simp [hp]) (by simp)
+      simp only [List.length_append, List.length_cons] at this
+      simp only [List.length_cons, List.nil_append] at this ⊢
+      rw [this]
+      rfl
+
+theorem cumeDist_eq_spec {p : List Nat} (P : Peers eqv p) : cumeDist eqv p = perRow (cumeDistSpec eqv) [] p := by
+  cases p with
+  | nil => rfl
+  | cons x rest =>
+    unfold cumeDist
+    rw [cumGroups_eq]
+    have := cumeLoop_spec eqv P rest [] x [] (by simp) (by simp)
+    simpa using this
+
+/-! PERCENT_RANK -/
+
+theorem percent_block (total : Nat) : ∀ (g2 g1 pre0 tail : List Nat),
+    total = pre0.length + g1.length + g2.length + tail.length →
+    (∀ j ∈ pre0, ∀ y ∈ g2, eqv j y = false) → (∀ j ∈ g1, ∀ y ∈ g2, eqv j y = true) →
+    g2.Pairwise (fun a b => eqv a b = true) →
+    perRow (percentRankSpec eqv) (pre0 ++ g1) (g2 ++ tail)
+      = g2.map (fun y => (y, if 1 < total then (pre0.length, total - 1) else (1, 1)))
+          ++ perRow (percentRankSpec eqv) (pre0 ++ g1 ++ g2) tail := by
+  intro g2
+  induction g2 with
+  | nil => intro g1 pre0 tail _ _ _ _; simp
+  | cons y g ih =>
+    intro g1 pre0 tail ht hpre hg1 hg
+    obtain ⟨hy, hg'⟩ := List.pairwise_cons.mp hg
+    simp only [List.cons_append, perRow, List.map_cons]
+    have hs : percentRankSpec eqv (pre0 ++ g1) y (g ++ tail)
+        = if 1 < total then (pre0.length, total - 1) else (1, 1) := by
+      have hf : ((pre0 ++ g1).filter (fun j => !eqv j y)).length = pre0.length := by
+        rw [List.filter_append, List.length_append,
+          filter_length_all _ pre0 (fun a ha => by simp [hpre a ha y (by simp)]),
+          filter_length_none _ g1 (fun a ha => by simp [hg1 a ha y (by simp)])]
+        omega
+      unfold percentRankSpec rankSpec
+      rw [hf]
+      simp only [List.length_append, List.length_cons] at ht ⊢
+      have e1 : pre0.length + g1.length + 1 + (g.length + tail.length) = total := by omega
+      rw [e1]
+      split
+      · congr 1 <;> omega
+      · rfl
+    rw [hs]
+    have := ih (g1 ++ [y]) pre0 tail (by simp at ht ⊢; omega)
+      (fun j hj z hz => hpre j hj z (by simp [hz]))
+      (fun j hj z hz => by
+        rcases List.mem_append.mp hj with hj | hj
+        · exact hg1 j hj z (by simp [hz])
+        · simp at hj; subst hj; exact hy z hz) hg'
+    simp only [← List.append_assoc] at this ⊢
+    rw [this]
+    simp
+
+theorem pre_not_peer_group {p : List Nat} (P : Peers eqv p) (pre0 : List Nat) (h : Nat) (run : List Nat)
+    (hrun : ∀ y ∈ run, eqv y h = true) (hpre : ∀ y ∈ pre0, eqv y h = false) :
+    ∀ j ∈ pre0, ∀ y ∈ h :: run, eqv j y = false := by
+  intro j hj y hy
+  rcases List.mem_cons.mp hy with rfl | hy
+  · exact hpre j hj
+  · cases hjy : eqv j y with
+    | false => rfl
+    | true =>
+      have := P.trans _ _ _ hjy (hrun y hy)
+      rw [hpre j hj] at this; exact absurd this (by simp)
+
+theorem percentLoop_spec {p : List Nat} (P : Peers eqv p) : ∀ (rest pre0 : List Nat) (h : Nat) (run : List Nat),
+    p = pre0 ++ h :: run ++ rest → (∀ y ∈ run, eqv y h = true) → (∀ y ∈ pre0, eqv y h = false) →
+    percentLoop p.length (openLoop eqv rest h (h :: run)) pre0.length
+      = perRow (percentRankSpec eqv) pre0 (h :: run ++ rest) := by
+  intro rest
+  induction rest with
+  | nil =>
+    intro pre0 h run hp hrun hpre
+    simp only [openLoop, percentLoop, List.append_nil]
+    have := percent_block eqv p.length (h :: run) [] pre0 [] (by rw [hp]; simp)
+      (pre_not_peer_group eqv P pre0 h run hrun hpre) (by simp)
+      ((group_pairwise eqv P h run hrun).imp (fun hab => P.symm _ _ hab))
+    simp only [List.append_nil] at this
+    rw [this]; simp [perRow]
+  | cons x rest ih =>
+    intro pre0 h run hp hrun hpre
+    simp only [openLoop]
+    by_cases hx : eqv x h = true
+    · simp only [hx, if_true]
+      have := ih pre0 h (run ++ [x]) (by simp [hp])
+        (fun y hy => by
+          rcases List.mem_append.mp hy with hy | hy
+          · exact hrun y hy
+          · simp at hy; subst hy; exact hx) hpre
+      simpa using this
+    · have hx' : eqv x h = false := by simpa using hx
+      simp only [hx', Bool.false_eq_true, if_false, percentLoop]
+      have hb := percent_block eqv p.length (h :: run) [] pre0 (x :: rest) (by rw [hp]; simp; omega)
+        (pre_not_peer_group eqv P pre0 h run hrun hpre) (by simp)
+        ((group_pairwise eqv P h run hrun).imp (fun hab => P.symm _ _ hab))
+      simp only [List.append_nil] at hb
+      rw [hb]
+      have := ih (pre0 ++ h :: run) x [] (by simp [hp]) (by simp) (run_break eqv P hp hrun hpre hx')
+      simp only [List.length_append, List.length_cons] at this
+      simp only [List.length_cons, List.nil_append] at this ⊢
+      rw [this]
+      rfl
+
+theorem percentRank_eq_spec {p : List Nat} (P : Peers eqv p) :
+    percentRank eqv p = perRow (percentRankSpec eqv) [] p := by
+  cases p with
+  | nil => rfl
+  | cons x rest =>
+    unfold percentRank
+    rw [cumGroups_eq]
+    have := percentLoop_spec eqv P rest [] x [] (by simp) (by simp) (by simp)
+    simpa using this
+
+end runs
+
+/-! ### NTILE -/
+
+theorem tileStart_succ (q r b : Nat) :
+    tileStart q r (b + 1) = tileStart q r b + q + (if b < r then 1 else 0) := by
+  unfold tileStart
+  have := Nat.succ_mul b q
+  simp only [Nat.succ_eq_add_one] at this
+  rw [this]
+  split <;> omega
+
+theorem tileStart_mono (q r : Nat) {b b' : Nat} (h : b ≤ b') : tileStart q r b ≤ tileStart q r b' := by
+  unfold tileStart
+  have := Nat.mul_le_mul_right q h
+  omega
+
+/-- state of the loop after `k` rows: bucket `b` (tile `b + 1`) is being filled, `count` of its rows placed -/
+def NtileInv (q r k tile count mod : Nat) : Prop :=
+  ∃ b, tile = b + 1 ∧ k = tileStart q r b + count ∧
+    ((count ≤ q ∧ mod = r - b) ∨ (count = q + 1 ∧ b < r ∧ mod = r - (b + 1)))
+
+theorem ntileLoop_map_fst (q : Nat) : ∀ (rest : List Nat) (tile count mod : Nat),
+    (ntileLoop q rest tile count mod).map Prod.fst = rest
+  | [], _, _, _ => rfl
+  | idx :: rest, tile, count, mod => by
+    simp only [ntileLoop]
+    split
+    · simp [ntileLoop_map_fst q rest]
+    · split
+      · split <;> simp [ntileLoop_map_fst q rest]
+      · simp [ntileLoop_map_fst q rest]
+
+theorem ntileLoop_spec (q r : Nat) (hq : 1 ≤ q) : ∀ (rest : List Nat) (k tile count mod : Nat),
+    NtileInv q r k tile count mod →
+    ∀ (j : Nat) (e : Nat × Nat), (ntileLoop q rest tile count mod)[j]? = some e →
+      ∃ b, e.2 = b + 1 ∧ tileStart q r b ≤ k + j ∧ k + j < tileStart q r (b + 1) := by
+  intro rest
+  induction rest with
+  | nil => intro k tile count mod _ j e h; simp [ntileLoop] at h
+  | cons idx rest ih =>
+    intro k tile count mod hinv j e h
+    obtain ⟨b, ht, hk, hst⟩ := hinv
+    have s1 := tileStart_succ q r b
+    have s2 := tileStart_succ q r (b + 1)
+    simp only [ntileLoop] at h
+    by_cases hA : q + 1 < count + 1
+    · simp only [hA, if_true] at h
+      have hc : count = q + 1 ∧ b < r ∧ mod = r - (b + 1) := by
+        rcases hst with ⟨h1, _⟩ | h2
+        · omega
+        · exact h2
+      cases j with
+      | zero =>
+        simp only [List.getElem?_cons_zero, Option.some.injEq] at h
+        subst h
+        refine ⟨b + 1, by simp [ht], ?_, ?_⟩
+        · simp only [hc.2.1, if_true] at s1; omega
+        · simp only [hc.2.1, if_true] at s1; split at s2 <;> omega
+      | succ j =>
+        simp only [List.getElem?_cons_succ] at h
+        have hinv' : NtileInv q r (k + 1) (tile + 1) 1 mod := by
+          refine ⟨b + 1, by omega, ?_, Or.inl ⟨hq, hc.2.2⟩⟩
+          simp only [hc.2.1, if_true] at s1; omega
+        obtain ⟨b', h1, h2, h3⟩ := ih (k + 1) (tile + 1) 1 mod hinv' j e h
+        exact ⟨b', h1, by omega, by omega⟩
+    · simp only [hA, if_false] at h
+      by_cases hB : q + 1 = count + 1
+      · simp only [hB, if_true] at h
+        have hc : count = q ∧ mod = r - b := by
+          rcases hst with ⟨_, h1⟩ | ⟨h2, _⟩
+          · exact ⟨by omega, h1⟩
+          · omega
+        by_cases hm : 0 < mod
+        · simp only [hm, if_true] at h
+          have hbr : b < r := by omega
+          cases j with
+          | zero =>
+            simp only [List.getElem?_cons_zero, Option.some.injEq] at h
+            subst h
+            refine ⟨b, by simp [ht], by omega, ?_⟩
+            simp only [hbr, if_true] at s1; omega
+          | succ j =>
+            simp only [List.getElem?_cons_succ] at h
+            have hinv' : NtileInv q r (k + 1) tile (count + 1) (mod - 1) :=
+              ⟨b, ht, by omega, Or.inr ⟨by omega, hbr, by omega⟩⟩
+            obtain ⟨b', h1, h2, h3⟩ := ih (k + 1) tile (count + 1) (mod - 1) hinv' j e h
+            exact ⟨b', h1, by omega, by omega⟩
+        · simp only [hm, if_false] at h
+          have hbr : ¬ b < r := by omega
+          cases j with
+          | zero =>
+            simp only [List.getElem?_cons_zero, Option.some.injEq] at h
+            subst h
+            refine ⟨b + 1, by simp [ht], ?_, ?_⟩
+            · simp only [hbr, if_false] at s1; omega
+            · simp only [hbr, if_false] at s1; split at s2 <;> omega
+          | succ j =>
+            simp only [List.getElem?_cons_succ] at h
+            have hinv' : NtileInv q r (k + 1) (tile + 1) 1 mod := by
+              refine ⟨b + 1, by omega, ?_, Or.inl ⟨hq, by omega⟩⟩
+              simp only [hbr, if_false] at s1; omega
+            obtain ⟨b', h1, h2, h3⟩ := ih (k + 1) (tile + 1) 1 mod hinv' j e h
+            exact ⟨b', h1, by omega, by omega⟩
+      · simp only [hB, if_false] at h
+        have hc : count < q ∧ mod = r - b := by
+          rcases hst with ⟨h1, h2⟩ | ⟨h2, _⟩
+          · exact ⟨by omega, h2⟩
+          · omega
+        cases j with
+        | zero =>
+          simp only [List.getElem?_cons_zero, Option.some.injEq] at h
+          subst h
+          refine ⟨b, by simp [ht], by omega, ?_⟩
+          split at s1 <;> omega
+        | succ j =>
+          simp only [List.getElem?_cons_succ] at h
+          have hinv' : NtileInv q r (k + 1) tile (count + 1) mod :=
+            ⟨b, ht, by omega, Or.inl ⟨by omega, hc.2⟩⟩
+          obtain ⟨b', h1, h2, h3⟩ := ih (k + 1) tile (count + 1) mod hinv' j e h
+          exact ⟨b', h1, by omega, by omega⟩
+
+theorem ntileParams_pos (total n : Nat) : 1 ≤ (ntileParams total n).1 := by
+  unfold ntileParams
+  split
+  · exact Nat.le_refl 1
+  · rename_i h; exact Nat.le_of_not_lt h
+
+/-- the buckets exactly cover the partition when there are at least as many rows as buckets,
+    otherwise there is one row per bucket -/
+theorem tileStart_total (total n : Nat) (hn : 1 ≤ n) :
+    total ≤ tileStart (ntileParams total n).1 (ntileParams total n).2 n := by
+  unfold ntileParams tileStart
+  split
+  · rename_i h
+    have : total < 1 * n := (Nat.div_lt_iff_lt_mul (by omega)).mp h
+    simp only [Nat.mul_one, Nat.min_zero]
+    omega
+  · have h1 := Nat.div_add_mod total n
+    have h2 := Nat.mod_lt total (show 0 < n by omega)
+    simp only
+    rw [Nat.min_eq_right (Nat.le_of_lt h2)]
+    omega
+
+/-! ### the aggregate branch -/
+
+section agg
+variable {β : Type}
+
+theorem aggFrames_some (cells : Nat → Val) (agg : Nat → List Val → β) (p : List Nat) : ∀ (fs : List Frame),
+    (∀ f ∈ fs, 0 ≤ f.high - f.low + 1) →
+    aggFrames cells agg p fs
+      = some (fs.flatMap fun f => f.records.map fun idx => (idx, agg idx ((frameRecords p f.low f.high).map cells)))
+  | [], _ => rfl
+  | f :: fs, h => by
+    have hf : ¬ f.high - f.low + 1 < 0 := by have := h f (by simp); omega
+    simp only [aggFrames, windowValues, hf, if_false]
+    rw [aggFrames_some cells agg p fs (fun g hg => h g (List.mem_cons_of_mem _ hg))]
+    simp
+
+theorem aggFrames_none (cells : Nat → Val) (agg : Nat → List Val → β) (p : List Nat) : ∀ (fs : List Frame),
+    (∃ f ∈ fs, f.high - f.low + 1 < 0) → aggFrames cells agg p fs = none
+  | [], h => by obtain ⟨f, hf, _⟩ := h; simp at hf
+  | f :: fs, h => by
+    by_cases hf : f.high - f.low + 1 < 0
+    · simp [aggFrames, windowValues, hf]
+    · have : ∃ g ∈ fs, g.high - g.low + 1 < 0 := by
+        obtain ⟨g, hg, hlt⟩ := h
+        rcases List.mem_cons.mp hg with rfl | hg
+        · exact absurd hlt hf
+        · exact ⟨g, hg, hlt⟩
+      simp [aggFrames, windowValues, hf, aggFrames_none cells agg p fs this]
+
+theorem mem_perRowFrames (p : List Nat) (lo hi : Nat → Int) (f : Frame) (h : f ∈ perRowFrames p lo hi) :
+    ∃ k, k < p.length ∧ f.low = lo k ∧ f.high = hi k := by
+  unfold perRowFrames at h
+  obtain ⟨r, hr, rfl⟩ := List.mem_map.mp h
+  have := List.mem_zipIdx_iff_getElem?.mp hr
+  have hlt : r.2 < p.length := by
+    rcases Nat.lt_or_ge r.2 p.length with h | h
+    · exact h
+    · rw [List.getElem?_eq_none h] at this; exact absurd this (by simp)
+  exact ⟨r.2, hlt, rfl, rfl⟩
+
+/-- every frame WindowFrameSet builds is the frame of some row, or the whole partition -/
+theorem windowFrameSet_bounds (w : Window) (p : List Nat) (f : Frame) (h : f ∈ windowFrameSet p w) :
+    (∃ k, k < p.length ∧ (f.low, f.high) = frameBounds w p.length k) ∨ (f.low = 0 ∧ f.high = (p.length : Int) - 1) := by
+  cases w with
+  | noOrder =>
+    simp only [windowFrameSet, singleFrameSet, List.mem_singleton] at h; subst h; exact Or.inr ⟨rfl, rfl⟩
+  | orderOnly =>
+    simp only [windowFrameSet] at h
+    obtain ⟨k, hk, h1, h2⟩ := mem_perRowFrames p _ _ f h
+    exact Or.inl ⟨k, hk, by rw [h1, h2]; rfl⟩
+  | rows lo =>
+    simp only [windowFrameSet] at h
+    obtain ⟨k, hk, h1, h2⟩ := mem_perRowFrames p _ _ f h
+    exact Or.inl ⟨k, hk, by rw [h1, h2]; rfl⟩
+  | between lo hi =>
+    by_cases hb : lo = .unboundedPreceding ∧ hi = .unboundedFollowing
+    · obtain ⟨rfl, rfl⟩ := hb
+      simp only [windowFrameSet, singleFrameSet, List.mem_singleton] at h; subst h; exact Or.inr ⟨rfl, rfl⟩
+    · have : windowFrameSet p (.between lo hi)
+          = perRowFrames p (fun c => frameIndex c p.length lo) (fun c => frameIndex c p.length hi) := by
+        cases lo <;> cases hi <;> simp_all [windowFrameSet]
+      rw [this] at h
+      obtain ⟨k, hk, h1, h2⟩ := mem_perRowFrames p _ _ f h
+      exact Or.inl ⟨k, hk, by rw [h1, h2]; rfl⟩
+
+theorem frames_not_inverted (w : Window) (p : List Nat) (hw : NoInvertedFrame w p.length) :
+    ∀ f ∈ windowFrameSet p w, 0 ≤ f.high - f.low + 1 := by
+  intro f hf
+  rcases windowFrameSet_bounds w p f hf with ⟨k, hk, e⟩ | ⟨h1, h2⟩
+  · have := hw k hk
+    rw [← e] at this; exact this
+  · rw [h1, h2]; omega
+
+end agg
+
+/-! ### partitions and the result column -/
+
+section partitions
+variable {κ : Type} [DecidableEq κ]
+
+theorem partitionsOf_eq_spec (keys : List κ) : partitionsOf keys = groupSpec keys.zipIdx :=
+  localGroups_eq_spec _
+
+theorem mem_members_zipIdx (keys : List κ) (k : κ) (i : Nat) :
+    i ∈ members k keys.zipIdx ↔ keys[i]? = some k := by
+  unfold members
+  simp only [List.mem_map, List.mem_filter, decide_eq_true_eq]
+  constructor
+  · rintro ⟨r, ⟨hr, hk⟩, hi⟩
+    have := List.mem_zipIdx_iff_getElem?.mp hr
+    rw [hi, hk] at this; exact this
+  · intro h
+    exact ⟨(k, i), ⟨List.mem_zipIdx_iff_getElem?.mpr h, rfl⟩, rfl⟩
+
+theorem members_sorted (keys : List κ) (k : κ) : (members k keys.zipIdx).Pairwise (· < ·) := by
+  unfold members
+  rw [List.pairwise_map]
+  apply List.Pairwise.sublist List.filter_sublist
+  have h : (keys.zipIdx.map Prod.snd).Pairwise (· < ·) := by
+    rw [List.zipIdx_map_snd]; exact List.pairwise_lt_range' (s := 0) (n := keys.length)
+  exact List.pairwise_map.mp h
+
+theorem mem_partitionsOf (keys : List κ) (part : κ × List Nat) :
+    part ∈ partitionsOf keys ↔ part.1 ∈ keys ∧ part.2 = members part.1 keys.zipIdx := by
+  rw [partitionsOf_eq_spec]; unfold groupSpec
+  have hk : keys.zipIdx.map Prod.fst = keys := by simp
+  rw [hk]
+  simp only [List.mem_map, mem_firstOcc]
+  constructor
+  · rintro ⟨k, hk, rfl⟩; exact ⟨hk, rfl⟩
+  · rintro ⟨h1, h2⟩; exact ⟨part.1, h1, by rw [← h2]⟩
+
+end partitions
+
+section assoc
+variable {β : Type}
+
+theorem assoc_append_left (i : Nat) (a b : List (Nat × β)) (h : i ∈ a.map Prod.fst) :
+    assoc i (a ++ b) = assoc i a := by
+  induction a with
+  | nil => simp at h
+  | cons e a ih =>
+    obtain ⟨j, v⟩ := e
+    simp only [List.cons_append, assoc]
+    by_cases hj : j = i
+    · simp [hj]
+    · simp only [hj, if_false]
+      apply ih
+      simp only [List.map_cons, List.mem_cons] at h
+      rcases h with h | h
+      · exact absurd h.symm hj
+      · exact h
+
+theorem assoc_append_right (i : Nat) (a b : List (Nat × β)) (h : i ∉ a.map Prod.fst) :
+    assoc i (a ++ b) = assoc i b := by
+  induction a with
+  | nil => rfl
+  | cons e a ih =>
+    obtain ⟨j, v⟩ := e
+    simp only [List.map_cons, List.mem_cons, not_or] at h
+    simp only [List.cons_append, assoc]
+    have : ¬ j = i := fun e => h.1 e.symm
+    simp only [this, if_false]
+    exact ih h.2
+
+theorem assoc_of_mem (i : Nat) (v : β) (l : List (Nat × β)) (hn : (l.map Prod.fst).Nodup) (h : (i, v) ∈ l) :
+    assoc i l = some v := by
+  induction l with
+  | nil => simp at h
+  | cons e l ih =>
+    obtain ⟨j, w⟩ := e
+    simp only [List.map_cons, List.nodup_cons] at hn
+    simp only [assoc]
+    rcases List.mem_cons.mp h with h | h
+    · injection h with h1 h2; simp [h1, h2]
+    · have : ¬ j = i := by
+        intro e; subst e
+        exact hn.1 (List.mem_map_of_mem (f := Prod.fst) h)
+      simp only [this, if_false]
+      exact ih hn.2 h
+
+/-- the value of record `i` comes from the one partition that contains it -/
+theorem assoc_flatMap {κ : Type} (exec : List Nat → List (Nat × β)) (i : Nat) (part0 : κ × List Nat) :
+    ∀ (L : List (κ × List Nat)),
+    (∀ part ∈ L, ∀ j, j ∈ (exec part.2).map Prod.fst ↔ j ∈ part.2) →
+    part0 ∈ L → i ∈ part0.2 → (∀ part ∈ L, i ∈ part.2 → part = part0) →
+    assoc i (L.flatMap fun part => exec part.2) = assoc i (exec part0.2) := by
+  intro L
+  induction L with
+  | nil => intro _ h; simp at h
+  | cons a L ih =>
+    intro hmem h0 hi huniq
+    simp only [List.flatMap_cons]
+    by_cases ha : i ∈ a.2
+    · have : a = part0 := huniq a (by simp) ha
+      subst this
+      exact assoc_append_left i _ _ ((hmem a (by simp) i).mpr ha)
+    · rw [assoc_append_right i _ _ (fun h => ha ((hmem a (by simp) i).mp h))]
+      have h0' : part0 ∈ L := by
+        rcases List.mem_cons.mp h0 with h | h
+        · subst h; exact absurd hi ha
+        · exact h
+      exact ih (fun part hp => hmem part (List.mem_cons_of_mem _ hp)) h0' hi
+        (fun part hp => huniq part (List.mem_cons_of_mem _ hp))
+
+theorem flatMap_flatten {α γ : Type} (f : α → List γ) : ∀ (L : List (List α)),
+    (L.flatMap fun c => c.flatMap f) = L.flatten.flatMap f
+  | [] => rfl
+  | c :: L => by simp [List.flatMap_cons, List.flatMap_append, flatMap_flatten f L]
+
+end assoc
+
+section analyze
+variable {κ : Type} [DecidableEq κ] {β : Type}
+
+theorem analyzeWith_eq (split : List (κ × List Nat) → List (List (κ × List Nat)))
+    (hsplit : ∀ l, (split l).flatten = l) (exec : List Nat → List (Nat × β)) (keys : List κ) :
+    analyzeWith split exec keys = analyze exec keys := by
+  unfold analyze analyzeWith
+  simp only [flatMap_flatten, hsplit, List.flatten_cons, List.flatten_nil, List.append_nil]
+
+/-- record `i` receives the value its partition's `Execute` returned for it -/
+theorem analyze_getElem (exec : List Nat → List (Nat × β))
+    (hexec : ∀ p j, j ∈ (exec p).map Prod.fst ↔ j ∈ p) (keys : List κ) (i : Nat) (k : κ)
+    (hk : keys[i]? = some k) :
+    (analyze exec keys)[i]? = some (assoc i (exec (members k keys.zipIdx))) := by
+  have hi : i < keys.length := by
+    rcases Nat.lt_or_ge i keys.length with h | h
+    · exact h
+    · rw [List.getElem?_eq_none h] at hk; exact absurd hk (by simp)
+  unfold analyze analyzeWith
+  simp only [List.flatMap_cons, List.flatMap_nil, List.append_nil]
+  rw [List.getElem?_map, List.getElem?_range hi]
+  simp only [Option.map_some]
+  congr 1
+  have hmemk : k ∈ keys := List.mem_of_getElem? hk
+  apply assoc_flatMap exec i (k, members k keys.zipIdx) (partitionsOf keys)
+  · intro part _ j; exact hexec part.2 j
+  · exact (mem_partitionsOf keys _).mpr ⟨hmemk, rfl⟩
+  · exact (mem_members_zipIdx keys k i).mpr hk
+  · intro part hp hip
+    obtain ⟨_, h2⟩ := (mem_partitionsOf keys part).mp hp
+    rw [h2] at hip
+    have := (mem_members_zipIdx keys part.1 i).mp hip
+    rw [hk] at this
+    injection this with this
+    cases part with
+    | mk a b => simp only at this h2 ⊢; subst this; rw [h2]
+
+end analyze
+
 end Csvq.Analytic
